@@ -155,6 +155,14 @@ def check(prog, res, tier):
         val = p.interp.user['value']
         segs = list(v.segs)
         fails = []
+        if pt == 'decimal':
+            # a Decimal is written in fixed-point notation: without the 'f' presentation type format() follows str(), which
+            # is exponent notation for values such as Decimal('1E+2') or Decimal('100').normalize()
+            for e in p.evs('format-obj'):
+                v = p.interp.resolve(e.data['value'])
+                if isinstance(v, SymV) and v.kind == 'decimal' and fi.short in e.stack and e.data['spec_type'] not in ('f', 'F'):
+                    fails.append(definite(f'a Decimal value is formatted with presentation type {e.data["spec_type"]!r}, not fixed point: a '
+                                          f'value held in exponent form goes on the wire as digits, "E", sign and exponent', e.node, firm=True))
         if ft in K:
             segs = segs[1:]
             if pt is None and vk in ('str', 'bytes'):
